@@ -1,18 +1,24 @@
 """./check selftest : anti-vacuity of every check that has a selftest (run by setup_cmd)"""
 import importlib
+import os
 import common
-
-MODS = ["c15"]
 
 
 def run_all(tier):
     rc = 0
-    for m in MODS:
+    for i in range(1, 21):
+        m = "c%02d" % i
+        if not os.path.exists(os.path.join(common.ROOT, "lib", m + ".py")):
+            continue
         mod = importlib.import_module(m)
         if not hasattr(mod, "selftest"):
             continue
         chk = common.Check(m.upper() + "_selftest", mod.LEVEL, "quick", 7)
-        r = mod.selftest(chk)
+        try:
+            r = mod.selftest(chk)
+        except AssertionError as e:
+            common.log("[selftest] %s: assertion %s" % (m, e))
+            r = 2
         common.log("[selftest] %s: %s" % (m, "ok" if r == 0 else "FAILED"))
         rc = max(rc, r)
     return 0 if rc == 0 else 2
